@@ -414,4 +414,227 @@ theorem chrCheck_bang : chrCheck 33 false = some (.unrecognizedChar, 1) ∧ chrC
 example : mixCheck [true, false] = some (.mixedBytes, 0) := by decide
 example : bytesCheck 0 [97, 233, 98] = some (.nonAsciiBytes, 3) := by decide
 
+
+/-! ### numeric literals -/
+
+/-- **Number lexer ⊆ Python's numeric literals.**  Entered at a digit (or at `.digit`), whatever
+    `lex_number` delivers as ONE numeric token is a numeric literal of the Language Reference: the rest
+    of the input after the token is one of the grammar's remainders. -/
+theorem lexRest_sound (cs r : List Nat) (hs : startsNumber cs = true) (h : lexRest cs = .ok r) :
+    r ∈ number cs := lexRest_sound_aux cs r hs h
+
+/-- a text the lexer takes as one whole numeric literal is a Python numeric literal … -/
+theorem acceptsNumber_sound (cs : List Nat) (hs : startsNumber cs = true)
+    (h : acceptsNumber cs = true) : isNumber cs = true := by
+  unfold acceptsNumber at h
+  cases hr : lexRest cs with
+  | error e => rw [hr] at h; cases h
+  | ok r =>
+    rw [hr] at h
+    simp only [List.isEmpty_iff] at h
+    subst h
+    have := lexRest_sound cs [] hs hr
+    unfold isNumber
+    rw [List.any_eq_true]
+    exact ⟨[], this, rfl⟩
+
+/-- … so a malformed numeral is never accepted as a number -/
+theorem malformed_number_rejected (cs : List Nat) (hs : startsNumber cs = true)
+    (h : isNumber cs = false) : acceptsNumber cs = false := by
+  cases ha : acceptsNumber cs
+  · rfl
+  · rw [acceptsNumber_sound cs hs ha] at h; cases h
+
+example : acceptsNumber [48, 120, 95, 49, 102] = true := by decide          -- 0x_1f
+example : isNumber [48, 120, 95, 49, 102] = true := by decide
+example : acceptsNumber [49, 46, 101] = false ∧ isNumber [49, 46, 101] = false := by decide   -- 1.e
+
+
+/-- The converse (every Python literal is taken whole) is not proved; it is sampled exhaustively to
+    length 5 by the correspondence stream.  One shape where the lexer takes LESS than Python's longest
+    literal is known (C01's finding `1.else`): after `1.` an `e` is always read as an exponent. -/
+theorem lexer_below_python_witness :
+    lexRest [49, 46, 101, 108, 115, 101] = .error [108, 115, 101] ∧
+    [101, 108, 115, 101] ∈ number [49, 46, 101, 108, 115, 101] := ⟨rfl, by decide⟩
+
+
+/-! ### whole parameter lists: bare `*`, order of the three checks -/
+
+/-- **Bare `*`.**  On a grammar-ordered parameter list the `ParameterListStarArgs` action rejects
+    exactly when the bare star is the last item ("a bare * with nothing after it"); `*, **kw` is NOT
+    rejected (DESIGN.md section 7). -/
+theorem bareStar_iff (ps : Sig) (hw : wellOrdered ps = true) :
+    (∃ off, bareStar ps = some (.bareStar, off)) ↔ bareStarLast ps := by
+  rw [← bareStar_last_iff ps 0 false hw]
+  unfold bareStar assemble layout
+  simp only
+  have hs := argsOf_nil_iff .star ps 0 false
+  have hv := argsOf_nil_iff .vararg ps 0 false
+  have hk := argsOf_nil_iff .kwonly ps 0 false
+  have hwk := argsOf_nil_iff .kwarg ps 0 false
+  cases hstar : argsOf PKind.star (layoutGo 0 false ps) with
+  | nil =>
+    have := hs.1 hstar
+    simp only [List.head?_nil]
+    constructor
+    · rintro ⟨off, h⟩; cases h
+    · rintro ⟨⟨p, hp, hpk⟩, _⟩; exact absurd hpk (this p hp)
+  | cons s rest =>
+    have hex : ∃ p, p ∈ ps ∧ p.kind = .star := by
+      by_cases h : ∃ p, p ∈ ps ∧ p.kind = .star
+      · exact h
+      · have : ∀ p, p ∈ ps → p.kind ≠ .star := fun p hp hk => h ⟨p, hp, hk⟩
+        rw [hs.2 this] at hstar; cases hstar
+    simp only [List.head?_cons]
+    constructor
+    · rintro ⟨off, h⟩
+      split at h
+      · rename_i hc
+        simp only [Bool.and_eq_true, head?_isNone_iff, List.isEmpty_iff] at hc
+        exact ⟨hex, hv.1 hc.1.1, hk.1 hc.1.2, hwk.1 hc.2⟩
+      · cases h
+    · rintro ⟨_, h1, h2, h3⟩
+      refine ⟨s.off, ?_⟩
+      have c : ((argsOf PKind.vararg (layoutGo 0 false ps)).head?.isNone &&
+          (argsOf PKind.kwonly (layoutGo 0 false ps)).isEmpty &&
+          (argsOf PKind.kwarg (layoutGo 0 false ps)).head?.isNone) = true := by
+        simp only [Bool.and_eq_true, head?_isNone_iff, List.isEmpty_iff]
+        exact ⟨⟨hv.2 h1, hk.2 h2⟩, hwk.2 h3⟩
+      rw [if_pos c]
+
+example : bareStar [⟨.normal, 0, false⟩, ⟨.star, 0, false⟩] = some (.bareStar, 3) := by decide
+example : bareStar [⟨.star, 0, false⟩, ⟨.kwarg, 0, false⟩] = none := by decide
+
+/-- **Order and outcome of the three checks on a signature**: the bare-star action, then
+    `validate_pos_params`, then `validate_arguments`; the signature is accepted exactly when none
+    of the three rules is broken. -/
+theorem checkSig_none_iff (ps : Sig) :
+    checkSig ps = none ↔
+      bareStar ps = none ∧
+      ¬ defaultOrderBroken (((assemble ps).posonly ++ (assemble ps).args).map (·.dflt)) ∧
+      ¬ dupName ((assemble ps).checkOrder.map (·.name)) := by
+  unfold checkSig
+  rw [← validatePosParams_iff, ← validateArguments_iff]
+  cases h1 : bareStar ps with
+  | some e => simp
+  | none =>
+    simp only [true_and]
+    cases h2 : validatePosParams (assemble ps).posonly (assemble ps).args with
+    | some e => simp
+    | none => simp
+
+theorem checkSig_kind (ps : Sig) (k : Kind) (off : Nat) (h : checkSig ps = some (k, off)) :
+    (k = .bareStar ∧ bareStar ps = some (k, off)) ∨
+    (k = .defaultOrder ∧ bareStar ps = none ∧
+        validatePosParams (assemble ps).posonly (assemble ps).args = some (k, off)) ∨
+    (k = .duplicateArgument ∧ bareStar ps = none ∧
+        validatePosParams (assemble ps).posonly (assemble ps).args = none ∧
+        validateArguments (assemble ps) = some (k, off)) := by
+  unfold checkSig at h
+  cases h1 : bareStar ps with
+  | some e =>
+    rw [h1] at h
+    simp only [Option.some.injEq] at h
+    subst h
+    left
+    refine ⟨?_, rfl⟩
+    unfold bareStar at h1
+    split at h1
+    · cases h1
+    · simp only at h1
+      split at h1
+      · simp at h1; exact h1.1.symm
+      · cases h1
+  | none =>
+    rw [h1] at h
+    simp only at h
+    cases h2 : validatePosParams (assemble ps).posonly (assemble ps).args with
+    | some e =>
+      rw [h2] at h
+      simp only [Option.some.injEq] at h
+      subst h
+      right; left
+      exact ⟨(validatePosParams_err _ _ k off h2).1, rfl, rfl⟩
+    | none =>
+      rw [h2] at h
+      simp only at h
+      right; right
+      exact ⟨(validateArguments_err _ k off h).1, rfl, rfl, h⟩
+
+
+/-! ### f-strings: the known finding -/
+
+/-- Full statement for one malformed shape: an f-string whose (first) replacement field begins with `=`
+    has no expression before the `=` and must be rejected (CPython: "f-string: expression required
+    before '='"). -/
+def fstr_leading_equals_full : Prop := ∀ rest : List Nat, fstrCheck (123 :: 61 :: rest) ≠ none
+
+/-- It fails on the unchanged code: `f'{={}}'` is accepted (known finding
+    `fstring-delimiter-after-selfdoc-equals`): a bracket after the `=` is still appended to the expression. -/
+theorem fstr_leading_equals_fails : ¬ fstr_leading_equals_full := by
+  intro h
+  exact h [123, 125, 125] (by decide +kernel)
+
+/-- characters that `parse_formatted_value` treats like ordinary expression text -/
+def ordinaryFieldChar (c : Nat) : Bool :=
+  c ≠ 33 && c ≠ 61 && c ≠ 62 && c ≠ 60 && c ≠ 58 && c ≠ 40 && c ≠ 123 && c ≠ 91 && c ≠ 41 && c ≠ 93 &&
+  c ≠ 125 && c ≠ 34 && c ≠ 39 && c ≠ 32 && c ≠ 92
+
+/-- The part that holds: when ordinary expression text follows the leading `=`, the field is rejected
+    (`expecting '}'`, located after that character). -/
+theorem fstr_leading_equals_partial (c : Nat) (rest : List Nat) (hc : ordinaryFieldChar c = true)
+    (hb : oddTrailingBackslash (123 :: 61 :: c :: rest) = false) :
+    fstrCheck (123 :: 61 :: c :: rest) = some (.fstring .unclosedLbrace, 3) := by
+  unfold fstrCheck
+  rw [hb]
+  simp only [Bool.false_eq_true, if_false]
+  have hf : 2 * (123 :: 61 :: c :: rest).length + 2 = (2 * rest.length + 5) + 1 + 1 + 1 := by
+    simp only [List.length_cons]; omega
+  rw [hf]
+  clear hf hb
+  generalize 2 * rest.length + 5 = k
+  unfold ordinaryFieldChar at hc
+  simp only [Bool.and_eq_true, decide_eq_true_eq, ne_eq] at hc
+  obtain ⟨⟨⟨⟨⟨⟨⟨⟨⟨⟨⟨⟨⟨⟨h1, h2⟩, h3⟩, h4⟩, h5⟩, h6⟩, h7⟩, h8⟩, h9⟩, h10⟩, h11⟩, h12⟩, h13⟩, h14⟩, h15⟩ := hc
+  cases rest with
+  | nil => simp [fsGo, fvGo, headIs, h1, h2, h3, h4, h5, h6, h7, h8, h9, h10, h11, h12, h13, h14, h15]
+  | cons c2 r2 => simp [fsGo, fvGo, headIs, h1, h2, h3, h4, h5, h6, h7, h8, h9, h10, h11, h12, h13, h14, h15]
+
+example : fstrCheck [123, 61, 121, 125] = some (.fstring .unclosedLbrace, 3) := by decide +kernel
+
+
+
+/-! ### the lexer's depth counter alone -/
+
+/-- forget the kind of every bracket -/
+def eraseKind : Sym → Sym
+  | .op _ => .op .paren
+  | .cl _ => .cl .paren
+  | .nl => .nl
+
+/-- **The lexer's `nesting` counter alone** is the bracket matcher on the word with all kinds
+    identified: it enforces balance (NestingError at the first closer without opener, Eof when something
+    stays open) but cannot see a mismatched kind — that is left to the grammar (`matchGo`). -/
+theorem nestGo_eq_matchGo_erased (w : List Sym) : ∀ (s : List BK) (i : Nat),
+    nestGo s.length i w = matchGo (s.map fun _ => .paren) i (w.map eraseKind) := by
+  induction w with
+  | nil => intro s i; cases s <;> simp [nestGo, matchGo]
+  | cons x w ih =>
+    intro s i
+    cases x with
+    | op k => simpa [nestGo, matchGo, eraseKind] using ih (k :: s) (i + 1)
+    | nl => simpa [nestGo, matchGo, eraseKind] using ih s (i + 1)
+    | cl k =>
+      cases s with
+      | nil => simp [nestGo, matchGo, eraseKind]
+      | cons t s' => simpa [nestGo, matchGo, eraseKind] using ih s' (i + 1)
+
+theorem nestGo_iff_dyck_erased (w : List Sym) : nestGo 0 0 w = none ↔ Dyck (w.map eraseKind) := by
+  rw [← matchGo_iff_dyck]
+  simpa using congrArg (· = none) (nestGo_eq_matchGo_erased w [] 0)
+
+example : nestGo 0 0 [.op .paren, .cl .sq] = none := by decide      -- `(]` passes the lexer
+example : matchGo [] 0 [.op .paren, .cl .sq] = some (.syntax, 1) := by decide
+
+
 end PV.C04
